@@ -55,3 +55,4 @@ CHECK = dict(
     gomaxprocs=1,
     mem_kb=14 * 1024 * 1024,
 )
+CHECK["claim"] += ' Fifth session: quick tier also n=6 and n=5 with a Byzantine leader of round 1 in forge mode (the sizes at which quorum 4 and 2f+1 = 3 differ), three lock-step groups (one member / the rest of the majority / the minority), R=2, capped like the other scenarios.'
